@@ -365,7 +365,12 @@ class Frame:
         self.depth = depth
         self.tu = func.tu
         self.rets = []
-        self.sites = {id(s.node): s for s in sites_mod.find_sites(func)}
+        # a statement whose binder travels through a repository helper is one site (rowmap.complete_site)
+        from . import rowmap as _rowmap
+        self.sites = {}
+        for s in sites_mod.find_sites(func):
+            s = _rowmap.complete_site(ip.prog, ip.cg, func, s)
+            self.sites[id(s.node)] = s
         self.edges = {id(e.node): e for e in ip.cg.edges(func)}
         self.guards = []      # stack of (cond term, labels)
         self.cond_stack = []  # terms of the enclosing if / loop conditions
@@ -1046,7 +1051,9 @@ class Frame:
                 if v and v[0] == 'const' and isinstance(v[1], str):
                     parts.append(v[1])
                 else:
-                    parts.append(effects.HOLE + str(p.desc))
+                    from . import rowmap as _rowmap
+                    ct = _rowmap.const_text(self.ip.prog, self.tu, p.node)   # text built from constants only
+                    parts.append(ct if ct is not None else effects.HOLE + str(p.desc))
         text = ''.join(parts)
         st = self.ip._sql_cache.get(text)
         if st is None:
@@ -1056,7 +1063,7 @@ class Frame:
                 self.ip.note_unknown('SQL at %s: %s' % (locstr(s.node), ex))
                 return UNK
             self.ip._sql_cache[text] = st
-        binds = [self.ev(b) for b in s.binds]
+        binds = self._bind_values(s)
         where = {}
         for i, p in enumerate(st.params):
             if p.role == 'where' and p.column and i < len(binds):
@@ -1073,6 +1080,31 @@ class Frame:
             for w in self.ip.writes[n0:]:
                 w.seq = self.ip.seq
                 w.conds = tuple(self.ip.cond_path)
+
+    def _bind_values(self, s):
+        """Terms of the bound values, in order; a bind written in a helper the binder travels
+        through is evaluated in the helper with its parameters bound to the call's arguments."""
+        ctx = getattr(s, 'bind_ctx', None)
+        if not ctx:
+            return [self.ev(b) for b in s.binds]
+        out = []
+        frames = {}
+        for b, cx in zip(s.binds, ctx):
+            if cx is None:
+                out.append(self.ev(b))
+                continue
+            helper, subst = cx
+            fr = frames.get(id(subst))
+            if fr is None:
+                env = Env()
+                for prm in helper.params:
+                    a = subst.get(prm.get('id'))
+                    t = (prm.get('type') or '')
+                    env.vars[prm['id']] = UNK if (a is None or 'database_binder' in t) else self.ev(a)
+                fr = Frame(self.ip, helper, env, self.depth + 1)
+                frames[id(subst)] = fr
+            out.append(fr.ev(b))
+        return out
 
     def _site_effects(self, s, st, binds, where, disc, table, loc):
         if st.kind == 'insert':
